@@ -265,4 +265,29 @@ def run(res, tier):
         if inp["callbacks"] is None and len(set(outs)) != 1:
             res.violation("output-differs-across-processes", {"input": inp["name"]})
     res.add(cli_processes_compared=nproc)
+    # histories across processes that meet on disk: the same -o path written by a sequence of generations (a build
+    # directory that is re-used); what a generation leaves in the file is a function of its own input only
+    sp = [x for x in inputs if x["name"].startswith("sp-") and "fallback" not in x["name"]]
+    seq = [sp[k % len(sp)] for k in (3, 0, 2, 1, 3, 2, 0)]      # big and small outputs alternate
+    outp = os.path.join(w, "shared-output.rs")
+    if os.path.exists(outp):
+        os.remove(outp)
+    nhist = 0
+    for step, inp in enumerate(seq):
+        ref = subprocess.run([C.BINDGEN] + inp["args"][1:], stdout=subprocess.PIPE, stderr=subprocess.PIPE,
+                             cwd=C.TESTS_CWD, timeout=600)
+        a = inp["args"][1:]
+        k = a.index("--") if "--" in a else len(a)
+        p = subprocess.run([C.BINDGEN] + a[:k] + ["-o", outp] + a[k:], stdout=subprocess.PIPE, stderr=subprocess.PIPE,
+                           cwd=C.TESTS_CWD, timeout=600)
+        if ref.returncode != 0 or p.returncode != 0:
+            raise C.ToolError("CLI generation failed in the output-path history: %s" % (p.stderr or ref.stderr)[-300:])
+        got = open(outp, "rb").read()
+        nhist += 1
+        if got != ref.stdout:
+            res.violation("output-file-depends-on-earlier-generation",
+                          {"step": step, "input": inp["name"], "earlier": [x["name"] for x in seq[:step]],
+                           "bytes_expected": len(ref.stdout), "bytes_in_file": len(got)})
+            break
+    res.add(output_path_history_generations=nhist)
     res.cov["exhaustive"] = False
